@@ -30,12 +30,13 @@ class PageInfo:
     headings: list = field(default_factory=list)         # (pos, level, text, weight)
     data: list = field(default_factory=list)
     sublineheads: list = field(default_factory=list)     # texts
+    subline_lines: int = 0                               # lower bound on the lines of the subline heading paragraph(s)
     fn_rows: int = 0
     src_rows: int = 0
 
     def total(self):
         return (sum(self.header_rows) + sum(h[3] for h in self.headings) + sum(d.weight for d in self.data)
-                + len(self.sublineheads) + self.fn_rows + self.src_rows)
+                + max(len(self.sublineheads), self.subline_lines) + self.fn_rows + self.src_rows)
 
     def body_fill(self):
         return sum(h[3] for h in self.headings) + sum(d.weight for d in self.data)
@@ -70,8 +71,17 @@ def lib_estimate(row: Row):
     return w
 
 
+def text_area_in(doc):
+    """Width available to a paragraph: paper width minus left and right margin (document start)."""
+    g = doc.geom[0] if doc.geom else {}
+    if all(k in g for k in ("paperw", "margl", "margr")):
+        return (g["paperw"] - g["margl"] - g["margr"]) / 1440.0
+    return None
+
+
 def analyze(doc):
     pages = []
+    area = text_area_in(doc)
     for pn, items in enumerate(classify(doc)):
         p = PageInfo(pn, items)
         for pos, it in enumerate(items):
@@ -93,6 +103,9 @@ def analyze(doc):
                 p.data.append(DataRow(idx, row_weight(it.block), lib_estimate(it.block), it.texts, pos))
             elif it.role == "sublinehead":
                 p.sublineheads.append(it.texts[0])
+                cp = it.block.cprops
+                f = (cp.get("f", 0) or 0) + 1
+                p.subline_lines += metrics.lines_lower_bound(it.texts[0], f if 1 <= f <= 10 else 1, (cp.get("fs", 18) or 18) / 2.0, area) if area else 1
             elif it.role == "fnrow":
                 p.fn_rows += 1
             elif it.role == "srcrow":
